@@ -1037,6 +1037,20 @@ func (i *Interpreter) applyNestedDefaultsToList(value interface{}, elem Type, en
 	return out, nil
 }
 
+// coerceArgument hands a whole float64 to an `int` parameter as an int64. JSON
+// numbers always arrive as float64 from HTTP request bodies, so typed function
+// parameters need this - on every way a function can be called: directly,
+// through a pipe, or as a callback (a pipe used to fail the function's `int`
+// return type and map(xs, half) computed 3.5 where half(x) computes 3).
+func coerceArgument(argVal interface{}, param Field) interface{} {
+	if fVal, ok := argVal.(float64); ok {
+		if _, isInt := param.TypeAnnotation.(IntType); isInt && fVal == float64(int64(fVal)) {
+			return int64(fVal)
+		}
+	}
+	return argVal
+}
+
 // executeFunction executes a user-defined function
 func (i *Interpreter) executeFunction(fn Function, args []Expr, env *Environment) (interface{}, error) {
 	// Create a new environment for the function. Its parent is the
@@ -1087,15 +1101,7 @@ func (i *Interpreter) executeFunction(fn Function, args []Expr, env *Environment
 			return nil, fmt.Errorf("missing required argument %s in function %s", param.Name, fn.Name)
 		}
 
-		// Auto-coerce float64 to int64 when parameter expects int.
-		// JSON numbers always arrive as float64 from HTTP request bodies,
-		// so this coercion is necessary for web server routes to work
-		// with typed function parameters. Only whole numbers are coerced.
-		if fVal, ok := argVal.(float64); ok {
-			if _, isInt := param.TypeAnnotation.(IntType); isInt && fVal == float64(int64(fVal)) {
-				argVal = int64(fVal)
-			}
-		}
+		argVal = coerceArgument(argVal, param)
 
 		// Validate argument type matches parameter type annotation
 		// Optional parameters can be nil without type checking
@@ -1187,15 +1193,7 @@ func (i *Interpreter) executeGenericFunction(fn Function, typeArgs []Type, args 
 	for idx, param := range instantiatedFn.Params {
 		argVal := argValues[idx]
 
-		// Auto-coerce float64 to int64 when parameter expects int.
-		// JSON numbers always arrive as float64 from HTTP request bodies,
-		// so this coercion is necessary for web server routes to work
-		// with typed function parameters. Only whole numbers are coerced.
-		if fVal, ok := argVal.(float64); ok {
-			if _, isInt := param.TypeAnnotation.(IntType); isInt && fVal == float64(int64(fVal)) {
-				argVal = int64(fVal)
-			}
-		}
+		argVal = coerceArgument(argVal, param)
 
 		// Validate argument type matches the instantiated parameter type
 		if param.TypeAnnotation != nil {
@@ -1595,6 +1593,8 @@ func (i *Interpreter) executeFunctionWithValues(fn Function, argVals []interface
 			return nil, fmt.Errorf("missing required argument %s in function %s", param.Name, fn.Name)
 		}
 
+		argVal = coerceArgument(argVal, param)
+
 		// Validate argument type matches parameter type annotation
 		skipTypeCheck := argVal == nil && !param.Required
 		if param.TypeAnnotation != nil && !skipTypeCheck {
@@ -1760,7 +1760,7 @@ func (i *Interpreter) callFnArg(fn interface{}, arg interface{}, env *Environmen
 	case Function:
 		fnEnv := NewChildEnvironment(i.globalEnv)
 		if len(f.Params) > 0 {
-			fnEnv.Define(f.Params[0].Name, arg)
+			fnEnv.Define(f.Params[0].Name, coerceArgument(arg, f.Params[0]))
 		}
 		result, err := i.executeStatements(f.Body, fnEnv)
 		if err != nil {
